@@ -912,7 +912,7 @@ class _NP:
             if not (isinstance(idx, int) and idx == 0):
                 raise EngineError('np.insert on a symbolic-length array only at position 0')
             f = a.f
-            return QArr(a.n + 1, lambda i: sym.ite(SymBool(i == 0), v, f(i - 1)), a.kind)
+            return QArr(z3.simplify(a.n + 1), lambda i: sym.ite(SymBool(i == 0), v, f(z3.simplify(i - 1))), a.kind)
         A = _np.asarray(_to_arr(a))
         V = _np.asarray(_to_arr(v)) if isinstance(v, (list, tuple, _np.ndarray)) or is_sym(v) else v
         if A.dtype != object and (is_sym(v) or _has_sym(v)):
